@@ -250,6 +250,28 @@ def check_collect_str(run, F, helpers, fn):
     if counter is None or emitter is None or len(ws) != 2:
         run.bad("S", key, "expected one counting and one emitting fmt::Write helper inside collect_str, found %d" % len(ws), site)
         return
+    # provided methods of fmt::Write (write_char, write_fmt) must stay derived from write_str, or agree with it
+    for o in pc.fns:
+        if (o.impl_trait or "") == "core::fmt::Write" and "collect_str" in o.canon and o.name != "write_str":
+            is_counter = o.impl_self == counter[0].impl_self
+            okov = False
+            if o.name == "write_char" and is_counter:
+                eng = sym.Engine(F, inline=inline_policy)
+                ops = [p for p in eng.run(o) if p.status == "return"]
+                if len(ops) == 1:
+                    wr = [e for e in ops[0].events if e["k"] == "write"]
+                    ctl = ("F", ("P", ("param", 1, o.locals[1]["ty"])), "ct")
+                    rc = tbl.residual_calls(ops[0])
+                    if len(wr) == 1 and wr[0]["loc"] == ctl and len(rc) == 1 and rc[0]["key"].endswith("::len_utf8") \
+                            and norm(rc[0]["args"][0]) == ("param", 2, "char"):
+                        v = norm(wr[0]["val"])
+                        old = ("init", ctl)
+                        r = norm(rc[0]["result"])
+                        okov = v in (norm(("bin", "Add", old, r, "usize")), norm(("bin", "Add", r, old, "usize"))) \
+                            and ops[0].ret[0] == "agg" and ops[0].ret[3] == "Ok"
+            if not okov:
+                problems.append("%s overrides fmt::Write::%s and does not count/emit the same bytes as its write_str (%s)" % (
+                    (o.impl_self or "?").split("::")[-1], o.name, "counting pass must add c.len_utf8()" if is_counter else "not derivable"))
     # counter: self.ct += s.len(), returns Ok, no other effect
     w, ps = counter
     okc = False
@@ -339,6 +361,9 @@ def check_collect_str(run, F, helpers, fn):
         run.ok("S", key, "count pass (no flavor access, += s.len()) ; VAR<usize>(count) ; emit pass (try_extend(s.as_bytes()))", site)
 
 
+from glueprops import run_groups
+
+
 def run(run_, ctx):
     F = ctx.facts("A")
     helpers = ctx.helpers("A")
@@ -363,6 +388,14 @@ def run(run_, ctx):
             else:
                 run_.bad("B1", canon, "not a %s: %s" % (nm, why))
     run_.floor("B1", 9)
+    # C02.ST storages hand the emitted bytes on unchanged and in order (the "encoded bytes" are what the storage keeps)
+    run_groups(run_, ctx, [
+        ("ST", "ser_slice", lambda k: "Index" not in k, "slice storage"),
+        ("ST", "ser_storage", lambda k: "Index" not in k and "Size" not in k, "vector/extend storage"),
+        ("ST", "ser_writer", None, "writer storage"),
+        ("ST", "ser_default", None, "default try_extend"),
+    ])
+    run_.floor("ST", 20)
     run_.explanation = (
         "Every serde Serializer method of postcard's Serializer (and of the 7 compound impls) is explored along all "
         "MIR paths; the ordered calls on the output flavor are matched against a table transcribed from "
